@@ -318,8 +318,13 @@ class ExprMixin:
             return [("val", BoundExt(o, name), st)]
         if isinstance(o, tuple) and o and o[0] == "typeof":
             pass
-        if isinstance(o, FuncRef) and name == "__name__":
-            return [("val", o.f.name, st)]
+        if isinstance(o, FuncRef):
+            attrs = st.ghost.get("__func_attrs__", {}).get(id(o), {})
+            if name in attrs:
+                return [("val", attrs[name], st)]
+            if name == "__name__":
+                return [("val", o.f.name, st)]
+            return self.raise_ext(st, "AttributeError", name)
         if isinstance(o, OpaqueFn):
             return self.hooks.opaque_fn_attr(self, st, o, name)
         raise Unsupported(f"attribute {name} of {o!r}")
@@ -447,6 +452,7 @@ class ExprMixin:
             res_t = T
             left = vals[0]
             for op, right in zip(e.ops, vals[1:]):
+                self.hooks.on_compare(self, s, e, op, left, right)
                 r = self.compare_op(op, left, right, s)
                 res_t = z3.And(res_t, r if not isinstance(r, bool) else z3.BoolVal(r)) if not isinstance(r, Sym) else z3.And(res_t, r.t)
                 left = right
@@ -500,7 +506,12 @@ class ExprMixin:
                     return [("val", tuple(flat), s)]
                 raise Unsupported("bitwise or")
             return self.then(self.ev_seq([e.left, e.right], st), u)
-        return self.then(self.ev_seq([e.left, e.right], st), lambda vals, s: [("val", ops.binop(s, e.op, self.unopt(s, vals[0]), self.unopt(s, vals[1])), s)])
+        def bo(vals, s):
+            a, b = self.unopt(s, vals[0]), self.unopt(s, vals[1])
+            r = ops.binop(s, e.op, a, b)
+            self.hooks.on_binop(self, s, e, a, b, r)
+            return [("val", r, s)]
+        return self.then(self.ev_seq([e.left, e.right], st), bo)
 
     def ev_Subscript(self, e, st):
         if isinstance(e.slice, ast.Slice):
